@@ -71,7 +71,7 @@ def _get_attributes(feature: Feature) -> dict[str, str]:
         atributes['mandatory'] = 'true'
     if feature.is_abstract:
         atributes['abstract'] = 'true'
-    atributes['name'] = safename(feature.name)
+    atributes['name'] = feature.name
     return atributes
 
 
@@ -119,7 +119,7 @@ def _get_ctc_info(ast_node: Node) -> dict[str, Any]:
     ctc_info: dict[str, Any] = {}
     if ast_node.is_term():
         ctc_info['type'] = FeatureIDEReader.TAG_VAR
-        ctc_info['operands'] = [safename(str(ast_node.data))]
+        ctc_info['operands'] = [str(ast_node.data)]
     else:
         ctc_info['type'] = FeatureIDEWriter.CTC_TYPES[ast_node.data]
         operands = []
